@@ -174,3 +174,108 @@ def c11_thread(tier, rng):
                 "required": "terminal vertex chosen on a locus = mirror of the one chosen on the mirrored locus",
                 "replay_call": "contracts.c_equivariance:replay_thread"}]}
     return {"cases": n, "bound": "%d random configurations" % n, "violations": [], "samples": [{"seed": base}]}
+
+
+# ---- polyA tail of an alignment vs polyT head of the mirrored alignment ------------------------------------------------------------------------
+def _polya_mirror_pair(seed):
+    """one alignment with an A-rich end (k aligned As, optional junk, t soft-clipped As) and its mirror image (reversed CIGAR, reverse-complemented
+    sequence, coordinates x -> L+1-x)"""
+    import random
+    from collections import namedtuple
+    A = namedtuple('A', ('query_name', 'cigartuples', 'seq', 'reference_start', 'reference_end'))
+    comp = {"A": "T", "C": "G", "G": "C", "T": "A"}
+    rnd = random.Random(seed)
+    L = 100000
+    body = "".join(rnd.choice("CGT" if rnd.random() < .7 else "ACGT") for _ in range(rnd.randint(60, 120)))
+    k = rnd.choice([0, 0, 1, 2, 3, 5, 10, 20])
+    body = body[:len(body) - k] + "A" * k
+    t = rnd.choice([0, 5, 10, 16, 20, 30, 40])
+    junk = "".join(rnd.choice("ACGT") for _ in range(rnd.choice([0, 0, 1, 2, 3])))
+    seq = body + junk + "A" * t
+    clip = len(junk) + t
+    cig = [(0, len(body))] + ([(4, clip)] if clip else [])
+    rs = rnd.randint(1000, 5000)
+    a = A("r", cig, seq, rs, rs + len(body))
+    m = A("r", list(reversed(cig)), "".join(comp[c] for c in reversed(seq)), L - a.reference_end, L - a.reference_start)
+    return a, m, L
+
+
+def _polya_mirror_case(seed):
+    """mismatches between find_polya_* on the alignment and find_polyt_* on its mirror image"""
+    from pyvc import native
+    PF = native.repo_import("src/polya_finder.py").PolyAFinder
+    a, m, L = _polya_mirror_pair(seed)
+    cig, seq = a.cigartuples, a.seq
+    k = clip = 20
+    f = PF()
+    out = []
+    for nm, fa, ft in (("external", f.find_polya_external, f.find_polyt_external), ("internal", f.find_polya_internal, f.find_polyt_internal)):
+        pa, pt = fa(a), ft(m)
+        if pa == -1 and pt == -1:
+            continue
+        if pa == -1 or pt == -1:
+            out.append({"seed": seed, "search": nm, "polya": pa, "polyt_of_mirror": pt, "mirror_diff": None})
+        elif (L + 1 - pa) != pt:
+            out.append({"seed": seed, "search": nm, "polya": pa, "polyt_of_mirror": pt, "mirror_diff": (L + 1 - pa) - pt})
+    return out, {"cigar": cig, "tail": seq[-44:], "reference_end": a.reference_end}
+
+
+def _polyt_as_listed(seed, search):
+    """the listed deviation, spelled out on the ORIGINAL alignment a (mirror image m): the polyT search looks at a.seq[end-from-1 : end+to]
+    (the polyA search at a.seq[end-from : end+to+1]) and converts the tail start q (index in a.seq) to
+    m.reference_start - (q - end + 1) when q >= end - 1, else m.reference_start + move_ref_coord_alogn_alignment(m, end - 1 - q)"""
+    from pyvc import native
+    mod = native.repo_import("src/polya_finder.py")
+    a, m, L = _polya_mirror_pair(seed)
+    f = mod.PolyAFinder()
+    frm, to, entire = (2, 2 * f.window_size, False) if search == "external" else (4 * f.window_size, 2, True)
+    clip = a.cigartuples[-1][1] if a.cigartuples[-1][0] == 4 else 0
+    end = len(a.seq) - clip
+    ws, we = max(0, end - frm - 1), min(len(a.seq), end + to)
+    chk = a.seq[ws:we].upper()
+    pos = f.find_polya(chk)
+    if entire and pos != -1 and chk[pos:].count('A') < len(chk[pos:]) * f.min_polya_fraction:
+        pos = -1
+    if pos == -1:
+        return -1
+    q = ws + pos
+    if q >= end - 1:
+        return max(1, m.reference_start - (q - end + 1))
+    return max(1, m.reference_start + mod.move_ref_coord_alogn_alignment(m, end - 1 - q))
+
+
+def kf_polyt_coordinate_convention(inputs):
+    """known-finding class (call site PolyAFinder.find_polyt_head against find_polya_tail): the reported polyT coordinate is exactly the one
+    the listed deviation produces (search window mirrored one base off, coordinate counted from the last T and from 0-based reference_start)"""
+    if not isinstance(inputs, dict) or "mirror_diff" not in inputs:
+        return False
+    try:
+        return _polyt_as_listed(inputs["seed"], inputs["search"]) == inputs["polyt_of_mirror"]
+    except Exception:
+        return False
+
+
+def replay_polya_mirror(d):
+    out, shape = _polya_mirror_case(d["inputs"]["seed"])
+    bad = [o for o in out if o["search"] == d["inputs"]["search"]]
+    return (not bad), "seed %s: %s on %s" % (d["inputs"]["seed"], bad or "mirror images agree", shape)
+
+
+@bounded("C11.polya_mirror", ["C11"], note="PolyAFinder.find_polya_external / _internal on an alignment with an A-rich end against find_polyt_external / "
+         "_internal on the mirror image (reversed CIGAR, reverse-complemented read, x -> L+1-x): the polyT coordinate is the mirror image of the "
+         "polyA coordinate and a tail is found on both sides or on neither")
+def c11_polya_mirror(tier, rng):
+    n = 1500 if tier == "quick" else 40000
+    base = rng.randrange(10 ** 9)
+    reps = {}
+    for k in range(n):
+        out, shape = _polya_mirror_case(base + k)
+        for o in out:
+            key = ("known" if kf_polyt_coordinate_convention(o) else "other", o["search"], o["mirror_diff"] is None)
+            if key not in reps:
+                reps[key] = (o, shape)
+    viol = [{"obligation": "C11.polya_mirror.%s" % o["search"], "inputs": o, "observed": "polyA %s on the alignment, polyT %s on its mirror image (%s)" % (
+                 o["polya"], o["polyt_of_mirror"], shape),
+             "required": "polyT coordinate of the mirrored alignment = L + 1 - polyA coordinate, found on both sides or on neither",
+             "replay_call": "contracts.c_equivariance:replay_polya_mirror"} for key, (o, shape) in sorted(reps.items(), key=str)]
+    return {"cases": n, "bound": "%d random alignments with A-rich ends" % n, "violations": viol, "samples": [{"seed": base}]}
